@@ -1000,9 +1000,10 @@ impl GcManaged for CallFrame {
 pub(crate) struct ExcHandler {
     pub(crate) catch_ip: *const u8,
     pub(crate) finally_ip: *const u8,
+    /// Just past the instruction that ends the try statement.
+    pub(crate) end_ip: *const u8,
     pub(crate) init_stack_size: usize,
     pub(crate) frame_count: usize,
-    pub(crate) nested_trys: usize,
 }
 
 /// A `return`, or a propagating exception, that is waiting for a finally block to finish.
@@ -1015,10 +1016,16 @@ pub(crate) struct PendingReturn {
     pub(crate) rethrow: bool,
     /// The frame that is returning.
     pub(crate) frame_count: usize,
-    /// Number of handlers that enclose the finally block being waited for.
-    pub(crate) handler_depth: usize,
-    /// Try statements of the returning frame entered, and not yet left, inside that finally block.
-    pub(crate) nested_trys: usize,
+    /// The code of the finally block being waited for, up to the end of its try statement. While
+    /// the outcome is waiting its frame executes inside this range only.
+    pub(crate) block_start: *const u8,
+    pub(crate) block_end: *const u8,
+}
+
+impl PendingReturn {
+    fn block_contains(&self, ip: *const u8) -> bool {
+        self.block_start <= ip && ip <= self.block_end
+    }
 }
 
 impl ExcHandler {
@@ -1123,23 +1130,18 @@ impl ObjFiber {
         self.frames.is_empty()
     }
 
-    pub(crate) fn push_exc_handler(&mut self, catch_ip: *const u8, finally_ip: *const u8) {
-        // A try statement entered while this frame's return waits for a finally block is nested in
-        // that block: its own end must not complete the return.
-        let frame_count = self.frames.len();
-        let mut nested_trys = 0;
-        if let Some(pending) = self.pending_returns.last_mut() {
-            if pending.frame_count == frame_count {
-                pending.nested_trys += 1;
-                nested_trys = pending.nested_trys;
-            }
-        }
+    pub(crate) fn push_exc_handler(
+        &mut self,
+        catch_ip: *const u8,
+        finally_ip: *const u8,
+        end_ip: *const u8,
+    ) {
         self.exc_handlers.push(ExcHandler {
             catch_ip,
             finally_ip,
+            end_ip,
             init_stack_size: self.stack.len(),
-            frame_count,
-            nested_trys,
+            frame_count: self.frames.len(),
         })
     }
 
@@ -1147,37 +1149,41 @@ impl ObjFiber {
         self.exc_handlers.pop()
     }
 
-    /// Called where a try statement ends. Yields the pending return or exception of the current frame
-    /// if this is the end of the finally block it was waiting for.
-    pub(crate) fn take_return_data(&mut self) -> Option<PendingReturn> {
+    /// Forgets outcomes of the current frame whose finally block has been left (by `break` or
+    /// `continue`), given that the frame is now executing at `ip`.
+    pub(crate) fn drop_abandoned_pending_returns(&mut self, ip: *const u8) {
         let frame_count = self.frames.len();
-        let pending = self.pending_returns.last_mut()?;
-        if pending.frame_count != frame_count {
-            return None;
-        }
-        if pending.nested_trys > 0 {
-            pending.nested_trys -= 1;
-            return None;
-        }
-        self.pending_returns.pop()
-    }
-
-    /// Called when an exception is delivered to `handler`, which has just been popped.
-    pub(crate) fn unwind_pending_returns(&mut self, handler: &ExcHandler) {
-        let handler_index = self.exc_handlers.len();
         while let Some(pending) = self.pending_returns.last() {
-            let frame_gone = pending.frame_count > handler.frame_count;
-            let left_finally =
-                pending.frame_count == handler.frame_count && handler_index < pending.handler_depth;
-            if frame_gone || left_finally {
+            if pending.frame_count == frame_count && !pending.block_contains(ip) {
                 self.pending_returns.pop();
             } else {
                 break;
             }
         }
-        if let Some(pending) = self.pending_returns.last_mut() {
-            if pending.frame_count == handler.frame_count {
-                pending.nested_trys = handler.nested_trys;
+    }
+
+    /// Called where a try statement ends, `ip` being just past that point. Yields the pending return
+    /// or exception of the current frame if it was waiting for the finally block that ends here.
+    pub(crate) fn take_return_data(&mut self, ip: *const u8) -> Option<PendingReturn> {
+        self.drop_abandoned_pending_returns(ip);
+        let pending = self.pending_returns.last()?;
+        if pending.frame_count != self.frames.len() || pending.block_end != ip {
+            return None;
+        }
+        self.pending_returns.pop()
+    }
+
+    /// Called when an exception is delivered to `handler`: outcomes of frames it has left, and of
+    /// finally blocks it has left in the handler's frame, are superseded.
+    pub(crate) fn unwind_pending_returns(&mut self, handler: &ExcHandler) {
+        while let Some(pending) = self.pending_returns.last() {
+            let frame_gone = pending.frame_count > handler.frame_count;
+            let left_finally = pending.frame_count == handler.frame_count
+                && !pending.block_contains(handler.catch_ip);
+            if frame_gone || left_finally {
+                self.pending_returns.pop();
+            } else {
+                break;
             }
         }
     }
